@@ -384,14 +384,16 @@ def typed_switch_cases(progs):
 
 
 def truth_typed_cases(progs):
-    """programs with truth-valued leaves or constant loop conditions x 16 assignments of operand types"""
-    out = []
+    """programs with truth-valued leaves or constant loop conditions x 16 assignments of operand types;
+    -> (programs with && or ||, whose two operands get different types; the others)"""
+    mixed, rest = [], []
     for c in progs:
         if not any(n["k"] in ("T", "F") or (n["k"] in LOOPS and n["a"] in (0, 9)) for n in c["p"]):
             continue
+        tgt = mixed if any(n["k"] in ("And", "Or") for n in c["p"]) else rest
         for rot in range(16):
-            out.append(dict(p=c["p"], tr=c["tr"], rot=rot))
-    return out
+            tgt.append(dict(p=c["p"], tr=c["tr"], rot=rot))
+    return mixed, rest
 
 
 # ------------------------------------------------------------------ scope histories -> C
@@ -622,15 +624,16 @@ def tlc_jobs(ctx):
         prof = PROFILES[name]
         out = os.path.join(ctx.scratch, "flow-%s.ndjson" % name)
         jobs.append((("prof", name, out), "CFlow", flow_cfg(ctx, name, prof[6] if q else prof[7]), dict(OUT=out), 2, "3g", True, "ok"))
-    for name, n, v in CONTROLS:
+    # quick runs one control per mechanism, thorough all of them
+    for name, n, v in [c for c in CONTROLS if not q or c[2] in ("norestore-cont", "norestore-sw", "and-or-mixup")]:
         jobs.append((("ctl", "CFlow:" + v, None), "CFlow", flow_cfg(ctx, name, n, variant=v, emit=False), None, 1, "1g", False, "reject"))
-    for v in ("for-noleave", "typedef-own-map"):
+    for v in ("for-noleave",) if q else ("for-noleave", "typedef-own-map"):
         jobs.append((("ctl", "Scope:" + v, None), "Scope", ctx.cfg("flow", "Scope_mc.cfg", MaxDecl=2, Variant='"%s"' % v), None, 1, "1g", False, "reject"))
     jobs.append((("mc", "SwitchCmp", None), "SwitchCmp", ctx.cfg("flow", "SwitchCmp.cfg"), None, 1, "1g", True, "ok"))
     jobs.append((("ctl", "SwitchCmp:labels-in-int", None), "SwitchCmp", ctx.cfg("flow", "SwitchCmp.cfg", FIXED=False), None, 1, "1g", False, "reject"))
     jobs.append((("ctl", "SwitchCmp:narrow-wrap", None), "SwitchCmp", ctx.cfg("flow", "SwitchCmp.cfg", NarrowWrap=True), None, 1, "1g", False, "reject"))
     jobs.append((("mc", "Truth", None), "Truth", ctx.cfg("flow", "Truth.cfg"), None, 1, "1g", True, "ok"))
-    for v in ("rhs-in-lhs-class", "nan-false"):
+    for v in ("rhs-in-lhs-class",) if q else ("rhs-in-lhs-class", "nan-false"):
         jobs.append((("ctl", "Truth:" + v, None), "Truth", ctx.cfg("flow", "Truth.cfg", Variant='"%s"' % v), None, 1, "1g", False, "reject"))
     return jobs
 
@@ -692,8 +695,11 @@ def run(ctx):
     compare(ctx, tree, tsel, render_flow, expect_flow, main_flow, "switch", flow_sig, first=1000000)
     ctx.phase("typed switch replay")
     # truth values of int / long / pointer / float / double / long double operands and conditions
-    truth = truth_typed_cases([c for name in ("expr", "all") for c in progs[name] if len(c["p"]) <= (5 if q else 6)])
-    usel = vt.subsample(truth, ctx.seed, 16 if q else 2)
+    # (the same closed domain in both tiers: expr programs <= 6 / 5 nodes, all-kinds programs <= 4 nodes)
+    mixed = truth_typed_cases([c for c in progs["expr"] if len(c["p"]) <= 6] + [c for c in progs["all"] if len(c["p"]) <= 4])[0]
+    rest = truth_typed_cases([c for c in progs["expr"] if len(c["p"]) <= 5] + [c for c in progs["all"] if len(c["p"]) <= 4])[1]
+    truth = mixed + rest
+    usel = vt.subsample(mixed, ctx.seed, 3 if q else 1) + vt.subsample(rest, ctx.seed, 32 if q else 2)
     ctx.sample(dict(kind="truth", c_source=render_flow(0, usel[len(usel) // 2]), expected=expect_flow(0, usel[len(usel) // 2])))
     compare(ctx, tree, usel, render_flow, expect_flow, main_flow, "truth", flow_sig, first=2000000)
     ctx.phase("typed truth replay")
